@@ -65,6 +65,10 @@ type RespSpec struct {
 	HdrBlock int    `json:"hb,omitempty"`
 	HdrShape string `json:"hbs,omitempty"`
 	DelayMs  int    `json:"delay_ms,omitempty"` // the origin stays silent this long before the first byte of its response
+	// round 8b: the origin reads the complete request and then closes the connection without a single response
+	// byte: "once" (the first arrival of this request only; a later arrival of the same request is answered with
+	// this response) | "always" (every arrival)
+	NoAnswer string `json:"noans,omitempty"`
 }
 
 type Exchange struct {
@@ -77,7 +81,7 @@ type Scenario struct {
 	Family     string       `json:"fam"`
 	Conns      [][]Exchange `json:"conns"`                // one exchange list per client connection (normally one connection)
 	Pipelined  bool         `json:"pipe,omitempty"`       // all requests written before the first response is read
-	Mode       string       `json:"mode,omitempty"`       // "" | concurrent | stalled_reader | interleaved | partial_next | idle_timeout | upstream_conn_age
+	Mode       string       `json:"mode,omitempty"`       // "" | concurrent | stalled_reader | interleaved | partial_next | idle_timeout | upstream_conn_age | origin_closed_before_answer
 	Gaps       []int        `json:"gaps_ms,omitempty"`    // upstream_conn_age: pause before the i-th exchange (exchanges counted across the connections, in order)
 	Sched      []int        `json:"sched,omitempty"`      // interleaved: connection index of each step (even step of a connection = send its next request, odd = read and check its response)
 	Cut        string       `json:"cut,omitempty"`        // partial_next: where the prefix of request 2 that travels with request 1 ends
@@ -689,6 +693,11 @@ func (g *gen) add(s Scenario) {
 			big = max(big, e.Req.HdrBlock, e.Resp.HdrBlock)
 		}
 		s.AlsoTCP = big <= 3<<20 && ((g.thorough && i%53 == 0) || (!g.thorough && i%11 == 0))
+	case s.Mode == modeNoAnswer:
+		// over TCP only where the outcome cannot depend on whether the transport found the pooled upstream
+		// connection in time (a request that may never be replayed)
+		_, x := noAnswerExchange(&s)
+		s.AlsoTCP = !replayPermitted(x.Req, true) && i%7 == 0
 	case s.Mode != "" || s.Family == "E_large" || s.Family == "H_early_response" || s.Family == "T_idle_timeout" || s.Family == "N_expect_without_100" || s.Family == "R_paused_bursts":
 	case g.thorough && strings.HasPrefix(s.Family, "D"):
 		s.AlsoTCP = i%307 == 0
@@ -930,7 +939,63 @@ func scenarios(tier string, keep func(id int) bool) (map[int]*Scenario, int, map
 		deepFamilies(g, alpha)
 	}
 	round8Families(g, alpha, thorough)
+	round8bFamilies(g)
 	return g.kept, g.n, g.fam
+}
+
+// modeNoAnswer: scenarios in which the origin reads one complete request and closes the connection instead of answering.
+const modeNoAnswer = "origin_closed_before_answer"
+
+// noAnswerMethods: the seven methods of the other families plus TRACE (the fourth method net/http calls idempotent).
+var noAnswerMethods = []string{"GET", "HEAD", "POST", "PUT", "DELETE", "PATCH", "OPTIONS", "TRACE"}
+
+// replayPermitted is the reference model of "may this request reach the origin a second time": the statement
+// says one-to-one; the only exception is the documented behaviour of the net/http Transport the proxy is built
+// on ("Transport only retries a request upon encountering a network error if the connection has already been
+// used successfully and if the request is idempotent and either has no body or has its Request.GetBody defined.
+// HTTP requests are considered idempotent if they have HTTP methods GET, HEAD, OPTIONS, or TRACE; or if their
+// Header map contains an Idempotency-Key or X-Idempotency-Key entry"). A request read from a client connection
+// never has GetBody; "no body" is what net/http's server-side reader calls no body: no framing at all or
+// Content-Length: 0 (an empty chunked body is a body). No header set of this family carries an idempotency key.
+func replayPermitted(r ReqSpec, onReusedUpstreamConn bool) bool {
+	if !onReusedUpstreamConn {
+		return false
+	}
+	switch r.Method {
+	case "GET", "HEAD", "OPTIONS", "TRACE":
+		return r.Framing == "none" || r.Framing == "cl0"
+	}
+	return false
+}
+
+// round8bFamilies (appended last; the ids of all earlier scenarios are unchanged; identical in both tiers):
+//
+// OC_origin_closes_before_answer: the origin reads ONE complete request and closes the connection without a
+// response byte. Request: 8 methods x {no framing, Content-Length: 0, empty chunked body, 1-byte body} x target
+// form {absolute, origin-form}; the upstream connection it travels on: fresh (first exchange on the proxy) |
+// reused (an ordinary exchange precedes it on the same client connection) | reused by the next client connection
+// (an ordinary exchange on a first client connection, which the client then closes); a second arrival of the
+// same request at the origin is {answered, closed again}. An ordinary exchange (POST with a body) and a probe
+// follow on the same client connection. Oracle: the origin log shows the request once - twice at most where
+// replayPermitted says so, judged on what the origin observed (the first arrival was not the first request of
+// its origin connection); the client receives exactly one complete, well-formed response: the origin's answer
+// if an arrival was answered, otherwise an answer of the proxy's own with a 5xx status; the following exchange
+// and the probe are served as usual.
+func round8bFamilies(g *gen) {
+	before := Exchange{ReqSpec{Method: "GET", Abs: true, Proto: "1.1", Framing: "none", Seg: "one"}, RespSpec{Status: 200, Framing: "cl", Size: 17}}
+	after := Exchange{ReqSpec{Method: "POST", Abs: true, Proto: "1.1", Framing: "cl", Size: 4097, Seg: "split"}, RespSpec{Status: 201, Framing: "chunked", Size: 4097}}
+	for _, m := range noAnswerMethods {
+		for _, b := range []bodyVariant{{"none", 0}, {"cl0", 0}, {"ch1", 0}, {"cl", 1}} {
+			for _, abs := range []bool{true, false} {
+				for _, again := range []string{"once", "always"} {
+					x := Exchange{ReqSpec{Method: m, Abs: abs, Proto: "1.1", Framing: b.framing, Size: b.size, Seg: "one"}, RespSpec{Status: 200, Framing: "cl", Size: 33, NoAnswer: again}}
+					for _, conns := range [][][]Exchange{{{x, after}}, {{before, x, after}}, {{before}, {x, after}}} {
+						g.add(Scenario{Family: "OC_origin_closes_before_answer", Conns: conns, Mode: modeNoAnswer})
+					}
+				}
+			}
+		}
+	}
 }
 
 // connection-age family: proxy timeout, nominal gap between exchanges, nominal duration of a slow exchange (ms)
@@ -1478,6 +1543,10 @@ type runOut struct {
 	inconclusiveAge                          int
 	respTrailersRelayed, respTrailersDropped int
 	bodyBytes                                int64
+	// origin_closed_before_answer
+	arrivals                               map[string][]int // by tag: index of each arrival on its origin connection
+	noAnsFresh, noAnsReused, noAnsReplayed int              // first arrival on a fresh / reused upstream connection; permitted replays seen
+	noAnsOwnAnswer                         int
 }
 
 func classOf(s *Scenario, e Exchange) string {
@@ -1615,6 +1684,22 @@ type originScript struct {
 	sc    *Scenario
 	resps map[string]*builtResp // by tag
 	order []string              // tags in arrival order
+	// origin_closed_before_answer
+	noAnswer map[string]string // by tag: "once" | "always"
+	arrivals map[string][]int  // by tag: for each arrival, the index of the request on its origin connection
+	answered map[string]int    // by tag: arrivals that were answered
+}
+
+// noAnswerExchange returns the tag and the exchange of the scenario whose request the origin does not answer.
+func noAnswerExchange(s *Scenario) (string, Exchange) {
+	for ci, exs := range s.Conns {
+		for k, e := range exs {
+			if e.Resp.NoAnswer != "" {
+				return tag(ci, k), e
+			}
+		}
+	}
+	return "", Exchange{}
 }
 
 func (o *originScript) handler(conn, idx int, req *h1harness.RawRequest, perr error) h1harness.Action {
@@ -1634,6 +1719,14 @@ func (o *originScript) handler(conn, idx int, req *h1harness.RawRequest, perr er
 	o.mu.Lock()
 	o.order = append(o.order, t)
 	r := o.resps[t]
+	if mode := o.noAnswer[t]; mode != "" {
+		o.arrivals[t] = append(o.arrivals[t], idx)
+		if mode == "always" || len(o.arrivals[t]) == 1 {
+			o.mu.Unlock()
+			return h1harness.Action{Close: true} // the complete request was read; not a byte is written
+		}
+		o.answered[t]++
+	}
 	o.mu.Unlock()
 	if r == nil {
 		return h1harness.Action{Write: [][]byte{[]byte("HTTP/1.1 599 Unknown Exchange\r\nContent-Length: 0\r\n\r\n")}}
@@ -2057,6 +2150,83 @@ func runConnAge(env *h1harness.Env, s *Scenario, script *originScript, out *runO
 	}
 }
 
+// runNoAnswer drives the origin_closed_before_answer mode: the client connections follow one another on the
+// same proxy (each but the last is closed by the client after its exchanges); one request is read completely
+// by the origin, which then closes the connection without a response byte. The client must still receive
+// exactly one complete, well-formed response to it: the origin's own if an arrival of the request was answered
+// (a replay that net/http's rules permit), otherwise one made by the proxy, with a 5xx status. The exchanges
+// around it are judged as everywhere else, and the last connection is probed.
+func runNoAnswer(env *h1harness.Env, s *Scenario, script *originScript, out *runOut, mu *sync.Mutex) {
+	report := func(k int, sym, detail string) {
+		out.findings = append(out.findings, finding{k, s.Mode, sym, detail})
+	}
+	for ci, exs := range s.Conns {
+		cl, err := env.NewClient()
+		if err != nil {
+			out.findings = append(out.findings, finding{0, "harness", "client_dial_failed", err.Error()})
+			return
+		}
+		if out.quiet > 0 {
+			cl.QuietTimeout = out.quiet
+		}
+		addOutcome := func(o string) { out.outcome = append(out.outcome, fmt.Sprintf("c%d:%s", ci, o)) }
+		for k, e := range exs {
+			t := tag(ci, k)
+			if err := cl.Send(buildReq(s.ID, ci, k, e.Req).segs...); err != nil {
+				report(k, "conn_closed_early", "writing request failed: "+err.Error())
+				return
+			}
+			res := cl.ReadResponse(e.Req.Method)
+			out.exchanges++
+			if res.HeadErr == "" || e.Resp.NoAnswer != "" {
+				out.reached[t] = true // the origin log of the unanswered request is judged whatever the client saw
+			}
+			script.mu.Lock()
+			answered, arrivals := script.answered[t], append([]int(nil), script.arrivals[t]...)
+			script.mu.Unlock()
+			if e.Resp.NoAnswer == "" || answered > 0 || res.HeadErr != "" {
+				if !checkResponse(s, e, t, k, res, script.resps[t], report, addOutcome, out, mu) {
+					return
+				}
+			} else {
+				// no answer of the origin exists: the proxy's own, complete and well-formed, saying so
+				addOutcome(fmt.Sprintf("own/%d/%s/%s", res.Status, res.Framing, res.BodyEnd))
+				what := fmt.Sprintf(" (%s request, framing %s; the origin read it %d time(s), as request(s) no. %v of the connection(s), and closed without answering)", e.Req.Method, e.Req.Framing, len(arrivals), arrivals)
+				if res.BodyEnd != h1harness.EndOK {
+					report(k, "resp_incomplete", fmt.Sprintf("the proxy's own response ended with %s after %d body bytes", res.BodyEnd, len(res.Body))+what)
+					return
+				}
+				if res.Status < 500 || res.Status > 599 {
+					report(k, "resp_status_without_origin_answer", fmt.Sprintf("status %d although no response of the origin exists", res.Status)+what)
+				}
+			}
+			if left := cl.Leftover(); len(left) > 0 {
+				report(k, "resp_trailing_garbage", fmt.Sprintf("%d bytes follow the complete response although no further request was sent: %q", len(left), trunc(left, 80)))
+				return
+			}
+		}
+		if ci < len(s.Conns)-1 {
+			cl.Conn.Close()
+			continue
+		}
+		probe := []byte("GET http://" + originHost + "/probe-" + tag(ci, 0) + " HTTP/1.1\r\nHost: " + originHost + "\r\nConnection: close\r\n\r\n")
+		if err := cl.Send(probe); err != nil {
+			report(len(exs)-1, "conn_closed_early", "connection not usable for the next request: "+err.Error())
+			return
+		}
+		pres := cl.ReadResponse("GET")
+		if pres.HeadErr != "" || pres.Status != 200 || string(pres.Body) != "probe-ok" || pres.BodyEnd != h1harness.EndOK {
+			report(len(exs)-1, "next_request_not_served", fmt.Sprintf("follow-up request: head=%q status=%d body=%q end=%s", pres.HeadErr, pres.Status, trunc(pres.Body, 60), pres.BodyEnd))
+			return
+		}
+		extra, end := cl.Drain()
+		addOutcome("probe_ok,end=" + end)
+		if len(extra) > 0 || end != h1harness.EndEOF {
+			out.findings = append(out.findings, finding{len(exs) - 1, "client_connection_close", "conn_not_closed", fmt.Sprintf("after the final request, which carried Connection: close: %d extra bytes, end=%s", len(extra), end)})
+		}
+	}
+}
+
 func trunc(b []byte, n int) []byte {
 	if len(b) > n {
 		return b[:n]
@@ -2209,6 +2379,9 @@ func checkOrigin(s *Scenario, log []*h1harness.RawRequest, parseErrs []string, o
 		for _, t := range order {
 			var c, k int
 			if n, _ := fmt.Sscanf(t, "c%de%d", &c, &k); n == 2 && c == ci && reached[t] {
+				if k == last && k < len(exs) && exs[k].Resp.NoAnswer != "" {
+					continue // repeated arrivals of the unanswered request: counted and judged below
+				}
 				if k <= last {
 					out.findings = append(out.findings, finding{k, reqClassOf(s, exs[min(k, len(exs)-1)]), "req_order_or_duplicate", fmt.Sprintf("origin saw exchanges in order %v", order)})
 					break
@@ -2230,7 +2403,30 @@ func checkOrigin(s *Scenario, log []*h1harness.RawRequest, parseErrs []string, o
 				add("req_missing_at_origin", "the origin never received this request")
 				continue
 			}
-			if len(got) > 1 {
+			if e.Resp.NoAnswer != "" {
+				// the origin read this request and closed the connection without answering. One-to-one: it must
+				// not see the request again, unless net/http's documented replay rule covers it (idempotent
+				// method, no body, and the failed attempt travelled on a reused upstream connection - judged
+				// on what the origin observed: the first arrival was not the first request of its connection);
+				// the replay then travels on a fresh connection and is the last one.
+				arr := out.arrivals[t]
+				reused := len(arr) > 0 && arr[0] > 0
+				allowed := 1
+				if replayPermitted(e.Req, reused) {
+					allowed = 2
+				}
+				if reused {
+					out.noAnsReused++
+				} else {
+					out.noAnsFresh++
+				}
+				if len(got) == 2 && allowed == 2 {
+					out.noAnsReplayed++
+				}
+				if len(got) > allowed {
+					add("req_duplicated_at_origin", fmt.Sprintf("the origin received this %s request (framing %s) %d times, as request(s) no. %v of its connection(s), after having read it completely and closed the connection without an answer; net/http's replay rule (idempotent method, no body, reused connection) permits %d delivery(ies) here", e.Req.Method, e.Req.Framing, len(got), arr, allowed))
+				}
+			} else if len(got) > 1 {
 				add("req_duplicated_at_origin", fmt.Sprintf("the origin received this request %d times", len(got)))
 			}
 			r := got[0]
@@ -2295,10 +2491,13 @@ func checkOrigin(s *Scenario, log []*h1harness.RawRequest, parseErrs []string, o
 func runScenario(s *Scenario, kind string, quiet time.Duration) *runOut {
 	out := &runOut{reached: map[string]bool{}, quiet: quiet}
 	var mu sync.Mutex
-	script := &originScript{sc: s, resps: map[string]*builtResp{}}
+	script := &originScript{sc: s, resps: map[string]*builtResp{}, noAnswer: map[string]string{}, arrivals: map[string][]int{}, answered: map[string]int{}}
 	sent := map[string]*builtReq{}
 	for ci, exs := range s.Conns {
 		for k, e := range exs {
+			if e.Resp.NoAnswer != "" {
+				script.noAnswer[tag(ci, k)] = e.Resp.NoAnswer
+			}
 			script.resps[tag(ci, k)] = buildResp(s.ID, ci, k, e.Req.Method, e.Resp)
 			sent[tag(ci, k)] = buildReq(s.ID, ci, k, e.Req)
 		}
@@ -2341,6 +2540,8 @@ func runScenario(s *Scenario, kind string, quiet time.Duration) *runOut {
 		runScripted(env, s, script, out, &mu)
 	case "upstream_conn_age":
 		runConnAge(env, s, script, out, &mu)
+	case modeNoAnswer:
+		runNoAnswer(env, s, script, out, &mu)
 	case "sequential_conns":
 		// one client connection after the other on the same proxy (shared transport, pooled upstream
 		// connections): every connection but the last is closed by the client after its exchanges
@@ -2368,6 +2569,9 @@ func runScenario(s *Scenario, kind string, quiet time.Duration) *runOut {
 	if !shutdownOK {
 		out.findings = append(out.findings, finding{0, classOf(s, s.Conns[0][0]), "proxy_shutdown_hang", "proxy.Close() did not return within 60 s after all client connections were closed"})
 	}
+	script.mu.Lock()
+	out.arrivals = script.arrivals
+	script.mu.Unlock()
 	checkOrigin(s, originLog, originErrs, out, sent, reached)
 	sort.Strings(out.outcome)
 	return out
@@ -2406,6 +2610,9 @@ func runCase(s *Scenario) *h1harness.CaseResult {
 			}
 		}
 	}
+	res.C["no_answer_first_arrival_on_fresh_upstream_conn"] += int64(o.noAnsFresh)
+	res.C["no_answer_first_arrival_on_reused_upstream_conn"] += int64(o.noAnsReused)
+	res.C["no_answer_permitted_replays_seen"] += int64(o.noAnsReplayed)
 	res.C["resp_trailers_relayed"] += int64(o.respTrailersRelayed)
 	res.C["resp_trailers_dropped"] += int64(o.respTrailersDropped)
 	nontrivial := len(s.Conns) > 1
@@ -2532,12 +2739,13 @@ func main() {
 	rep.Coverage["distinct_nontrivial"] = rep.Counter("nontrivial")
 	rep.Coverage["distinct_outcomes"] = len(agg.Keys["outcomes"])
 	rep.Coverage["exhaustive"] = rep.Incomplete == ""
-	rep.Coverage["rule"] = "every scenario of the families A (request body: 7 methods x 2 target forms x {no Expect, Expect} x body framings x sizes x write segmentations), B (request head: methods x target forms x 9 header sets x {1.1,1.0,1.0+keep-alive} x Connection: close x {no body, 1 byte}), C (response: {GET,HEAD,POST} x client Accept-Encoding {absent,gzip,identity} x protocol x every origin response shape: status x framing x size x header set x Connection: close, bodiless statuses, 1xx-then-final), X (12 request shapes x all response shapes), D (all sequences over the 6x5 reduced exchange alphabet, sequential and pipelined), G (gzip then a second exchange), E (large bodies), F (3 concurrent connections / a stalled reader on one proxy), Y (request trailers: 1 or 2 announced fields, judged), R (origin response in two bursts separated by 0/150/400 ms of silence), P (request 1 plus a prefix of request 2 in one write, cut at 7 points; response 1 must arrive before the rest is sent), T (SetTimeout(T), 4 requests separated by gaps < T/2 summing to > T; judged only if the measured gaps stayed below T/2), HB (request / response heads padded to exactly 1 MiB-4096, 1 MiB+4096, 3 MiB bytes - thorough also 1 MiB-1, 1 MiB, 1 MiB+1, 2, 6, 9 MiB - as 4 KiB lines of one name, 64 KiB lines of distinct names or a single field x request/response shapes x position: alone, first, second, pipelined), L (SetTimeout(3 s), dial installed through SetDial: every timeline of 2..3 - thorough 2..4 - exchanges with 0 or 1.2 s of origin silence before the head or inside the body and idle gaps of 0 or 0.7 s whose total exceeds the timeout, on one client connection or split over two consecutive ones, GET / POST / PUT; judged only if every measured gap and exchange stayed below T/2) and, in the thorough tier, D2 (length 2 over the wide 8x8 alphabet), D3 (length 3 over the wide alphabet), D4 (length 4 over the reduced alphabet), all sequential and pipelined, S (origin response cut into several writes: head/body, one write per head line, byte by byte), I (2-3 client connections whose send/receive steps interleave in every scripted order), sizes around the 4096/8192/32768/65536 boundaries and the chunk-size lists [n], [1,n-1], [n-1,1], [1]*n, [4096...], [1,2,4,...], chunk extensions, trailers is executed once; scenarios are deduplicated after truncation at the first closing exchange. A scenario is non-trivial when it relays at least one non-empty body or more than one exchange."
+	rep.Coverage["rule"] = "every scenario of the families A (request body: 7 methods x 2 target forms x {no Expect, Expect} x body framings x sizes x write segmentations), B (request head: methods x target forms x 9 header sets x {1.1,1.0,1.0+keep-alive} x Connection: close x {no body, 1 byte}), C (response: {GET,HEAD,POST} x client Accept-Encoding {absent,gzip,identity} x protocol x every origin response shape: status x framing x size x header set x Connection: close, bodiless statuses, 1xx-then-final), X (12 request shapes x all response shapes), D (all sequences over the 6x5 reduced exchange alphabet, sequential and pipelined), G (gzip then a second exchange), E (large bodies), F (3 concurrent connections / a stalled reader on one proxy), Y (request trailers: 1 or 2 announced fields, judged), R (origin response in two bursts separated by 0/150/400 ms of silence), P (request 1 plus a prefix of request 2 in one write, cut at 7 points; response 1 must arrive before the rest is sent), T (SetTimeout(T), 4 requests separated by gaps < T/2 summing to > T; judged only if the measured gaps stayed below T/2), HB (request / response heads padded to exactly 1 MiB-4096, 1 MiB+4096, 3 MiB bytes - thorough also 1 MiB-1, 1 MiB, 1 MiB+1, 2, 6, 9 MiB - as 4 KiB lines of one name, 64 KiB lines of distinct names or a single field x request/response shapes x position: alone, first, second, pipelined), L (SetTimeout(3 s), dial installed through SetDial: every timeline of 2..3 - thorough 2..4 - exchanges with 0 or 1.2 s of origin silence before the head or inside the body and idle gaps of 0 or 0.7 s whose total exceeds the timeout, on one client connection or split over two consecutive ones, GET / POST / PUT; judged only if every measured gap and exchange stayed below T/2), OC (the origin reads one complete request and closes without a response byte: 8 methods x {no framing, Content-Length: 0, empty chunked body, 1-byte body} x 2 target forms x upstream connection {fresh, reused on the same client connection, reused by the next client connection} x a second arrival {answered, closed again}, followed by an ordinary exchange and a probe; the origin may see the request once - twice only where net/http's documented replay rule applies: idempotent method, no body, reused connection, as observed by the origin - and the client gets one complete response: the origin's if an arrival was answered, else a 5xx of the proxy) and, in the thorough tier, D2 (length 2 over the wide 8x8 alphabet), D3 (length 3 over the wide alphabet), D4 (length 4 over the reduced alphabet), all sequential and pipelined, S (origin response cut into several writes: head/body, one write per head line, byte by byte), I (2-3 client connections whose send/receive steps interleave in every scripted order), sizes around the 4096/8192/32768/65536 boundaries and the chunk-size lists [n], [1,n-1], [n-1,1], [1]*n, [4096...], [1,2,4,...], chunk extensions, trailers is executed once; scenarios are deduplicated after truncation at the first closing exchange. A scenario is non-trivial when it relays at least one non-empty body or more than one exchange."
 	rep.Coverage["bounds"] = fmt.Sprintf("tier %s: %d scenarios (families %v); sizes %s; sequences of length <= %d; <= 3 client connections; bodies <= %s; header blocks <= %s; connection-age timelines: timeout 3000 ms, gaps {0,700} ms, origin silences {0,1200} ms", tier, total, fams,
 		map[string]string{"quick": "{0,1,4097} + 300001", "thorough": "{0,1,4095..4097,8191..8193,32767..32769,65535..65537} + 300001, 1 MiB+3, 4 MiB"}[tier], map[string]int{"quick": 2, "thorough": 4}[tier], map[string]string{"quick": "300001 B", "thorough": "4 MiB"}[tier], map[string]string{"quick": "3 MiB", "thorough": "9 MiB"}[tier])
 	rep.Assumptions = []string{
 		"in-memory connections model TCP (bounded buffers, EOF after buffered bytes, EPIPE on write to a closed peer); a deterministic subset of scenarios is re-run over loopback TCP and any difference in outcome is reported as a harness problem (coverage.mem_tcp_disagreements)",
 		"framing headers (Content-Length, Transfer-Encoding) and RFC 7230 6.1 hop-by-hop headers are not compared; bodies are compared after de-framing; header names are compared case-insensitively; headers added by the proxy/transport are allowed; announced request trailer fields must reach the origin with their values",
+		"family OC: a request may reach the origin a second time only under the replay rule documented for net/http's Transport (idempotent method GET/HEAD/OPTIONS/TRACE, no body, the failed attempt travelled on a connection that had been used before); whether the failed attempt was on a reused connection is read from the origin log (it was not the first request of its origin connection), not assumed; when no arrival was answered the client must get a complete response with a 5xx status (a status below 500 would claim an outcome the origin never gave)",
 		"a stalled exchange is recognised structurally (proxy and client both blocked in Read on the same connection with nothing in flight), confirmed over 3 polls; the hang deadline is 60 s",
 		"goroutine schedules inside net/http's Transport are not enumerated (free-running)",
 	}
